@@ -218,6 +218,52 @@ func latchConc(d latchDesc) corr.Case {
 	return corr.Case{Coq: latchTerm(d.N, reqs, sl, tr, false, nil, done), Nontrivial: overlap || d.N <= 2, Desc: d}
 }
 
+// stripePairs searches, by hashing generated keys, pairs of keys whose stripes in a manager of n stripes
+// are different but congruent modulo m (m = 256: the width of a byte-indexed table; m = n/2 etc.), plus
+// pairs of distinct keys on the same stripe. MemHash is seeded per process, so the search runs every time.
+func stripePairs(n, m, want int) (congruent, same [][2][]byte) {
+	byStripe := map[int][][]byte{}
+	for i := 0; i < 40000 && (len(congruent) < want || len(same) < want); i++ {
+		k := []byte(fmt.Sprintf("ck-%d", i))
+		st := int(kv.MemHash(k) % uint64(n))
+		if prev := byStripe[st]; len(prev) > 0 && len(same) < want {
+			same = append(same, [2][]byte{prev[0], k})
+		}
+		for _, o := range []int{st + m, st - m} {
+			if o >= 0 && o < n && len(congruent) < want {
+				if prev := byStripe[o]; len(prev) > 0 {
+					congruent = append(congruent, [2][]byte{prev[0], k})
+				}
+			}
+		}
+		byStripe[st] = append(byStripe[st], k)
+	}
+	return congruent, same
+}
+
+// bigManagerDescs: managers around and above 256 stripes (512 is the size the apply path uses) with
+// multi-key requests whose stripes collide modulo 256, and overlapping single-key requests.
+func bigManagerDescs(c *corr.Ctx, perSize int) []latchDesc {
+	var out []latchDesc
+	for _, n := range []int{255, 256, 257, 512, 1024} {
+		congr, same := stripePairs(n, 256, perSize)
+		pairs := append(append([][2][]byte{}, congr...), same...)
+		for len(pairs) < perSize { // n <= 256: no congruent pair exists; use arbitrary keys
+			i := len(pairs)
+			pairs = append(pairs, [2][]byte{[]byte(fmt.Sprintf("ak-%d", 2*i)), []byte(fmt.Sprintf("ak-%d", 2*i+1))})
+		}
+		for _, p := range pairs {
+			a, b := p[0], p[1]
+			extra := corr.Pick(c.Rng, latchAlphabet)
+			d := latchDesc{N: n, Reqs: [][]string{
+				hexKeys([][]byte{a, b}), hexKeys([][]byte{b}), hexKeys([][]byte{a}), hexKeys([][]byte{b, extra, a, b}),
+			}}
+			out = append(out, d)
+		}
+	}
+	return out
+}
+
 func genReqs(c *corr.Ctx, n, maxKeys int) []string {
 	k := c.Rng.Intn(maxKeys + 1)
 	var ks [][]byte
@@ -229,7 +275,7 @@ func genReqs(c *corr.Ctx, n, maxKeys int) []string {
 
 func runLatch(c *corr.Ctx) error {
 	c.Meta("run_module", "RunLatch")
-	c.Meta("rule", "random key sets over a 14-key alphabet (empty key, duplicates, prefix-related keys), stripe counts {1,2,3,4,256}; sequential cases compare slot lists and the locked-stripe set after every Enter/Exit; concurrent cases (2..8 goroutines x 1..3 requests) compare slot lists and check that the logged Enter/Exit trace is a trace of the model and never overlaps conflicting requests. non-trivial = a sequential case in which an Enter was refused at least once, or a concurrent case with real overlap of critical sections or <= 2 stripes")
+	c.Meta("rule", "random key sets over a 14-key alphabet (empty key, duplicates, prefix-related keys), stripe counts {1,2,3,4,256,257,512}, plus managers of 255/256/257/512/1024 stripes with keys searched by hashing so that the stripes of one request are different but congruent modulo 256 (or equal), overlapped by single-key requests; sequential cases compare slot lists and the locked-stripe set after every Enter/Exit; concurrent cases (2..8 goroutines x 1..3 requests) compare slot lists and check that the logged Enter/Exit trace is a trace of the model and never overlaps conflicting requests. non-trivial = a sequential case in which an Enter was refused at least once, or a concurrent case with real overlap of critical sections or <= 2 stripes")
 	c.Meta("exhaustive", false)
 	if c.Replay != "" {
 		cases, err := c.ReplayCases()
@@ -249,7 +295,26 @@ func runLatch(c *corr.Ctx) error {
 		}
 		return nil
 	}
-	ns := []int{1, 2, 2, 3, 4, 256}
+	// managers with 255..1024 stripes and keys whose stripes collide modulo 256
+	for _, d := range bigManagerDescs(c, c.Scale(6, 60)) {
+		// sequential: the multi-key request enters first, then the overlapping single-key requests are tried
+		for _, order := range [][]int{{0, 1, 2, 3, 0, 1, 2, 3}, {1, 0, 2, 1, 3, 0, 2, 3}, {3, 1, 2, 0, 3, 1, 2, 0}} {
+			ds := d
+			ds.Seq, ds.Order = true, order
+			c.Count(fmt.Sprintf("seq.big.n=%d", d.N))
+			c.Emit(latchSeq(ds))
+		}
+		dc := d
+		dc.Gs, dc.Rounds = 4, 1
+		c.Count(fmt.Sprintf("conc.big.n=%d", d.N))
+		cs := latchConc(dc)
+		c.Emit(cs)
+		if strings.HasSuffix(cs.Coq, "false") {
+			c.Count("conc.incomplete")
+			return nil
+		}
+	}
+	ns := []int{1, 2, 2, 3, 4, 256, 257, 512}
 	for i := 0; i < c.Scale(200, 4000); i++ {
 		d := latchDesc{N: corr.Pick(c.Rng, ns), Seq: true}
 		nreq := 2 + c.Rng.Intn(4)
